@@ -42,6 +42,8 @@ func runC07(c *Ctx) {
 		ruleAutoStateful(c, p, "C07.auto-stateful")
 		ruleRowLoopBound(c, p, "C07.row-loop")
 		ruleStateMethodSet(c, p, "C07.state-methodset")
+		ruleConfigParsed(c, p, "C07.config")
+		ruleConflictsSymm(c, p, "C07.conflicts")
 		ruleAutoAdopts(c, p, "C07.auto-adopt")
 		ruleForwardAll(c, p, "C07.forward-all")
 		ruleReadFullSized(c, p, "C07.readfull-sized")
@@ -243,6 +245,10 @@ func ruleFieldBeforeUse(c *Ctx, p *core.Program, rule string) {
 				}
 				fa, ok := st.Addr.(*ssa.FieldAddr)
 				if !ok || fa.X != ssa.Value(recv) {
+					continue
+				}
+				// a selector is a scalar; a buffer that was grown by a wire-derived size is not one
+				if _, scalar := st.Val.Type().Underlying().(*types.Basic); !scalar {
 					continue
 				}
 				wire := func(v ssa.Value) bool {
